@@ -590,6 +590,13 @@ class Session:
                 generic=kind.endswith("stale-after-cached-render"),
             )
             raise Abort
+        if self.numeric is not None and self.opname == "char" and match[0].note == "unhandled":
+            # the text is back to what it was, but did it hold the sign in a non-leading place on the way?
+            bad = [a for n, a, _t, _p in self.siglog if n == "change" and "-" in a[1:]]
+            if bad:
+                self.viol("alphabet|minus-not-leading|transient(zero-typed-before-minus-then-trimmed)", f"{opdesc}: signalled texts {bad!r}; log={self.siglog!r}")
+                m.commit(match[0])
+                return
         good = [oc for oc in match if ret in oc.rets]
         if not good:
             oc = match[0]
